@@ -57,7 +57,8 @@ class C09(Prop):
     theorems = ["cum_axes_unchanged", "cum_prefix", "diff1_backward_labels", "diff1_forward_labels",
                 "diff1_centered_labels", "diff1_keepaxis_labels", "diff1_values", "diff1_keepaxis_pad", "diff1_other_axes",
                 "arg_labels", "diffAxis_iterate", "diffN_values", "diff2_values", "diffN_total", "diffN_labels", "diffN_empty",
-                "diffN_keepaxis", "cum_last_eq_reduce", "arg_value_spec", "arg_whole_spec", "arg_label_dup_counterexample"]
+                "diffN_keepaxis", "cum_last_eq_reduce", "arg_value_spec", "arg_whole_spec", "arg_label_dup_counterexample",
+                "argWhole_eq_labels", "argWhole_spec", "argWhole_index_back"]
     rule = ("numeric (float/int) arrays of rank 1-4 with sizes 1-5 along the operated axis, numeric sorted / unsorted and "
             "str labels, metadata on the array and on (some of) its axes, NaNs (some / whole fibre / all) in the values; "
             "cumsum / cumprod (default and every axis by name / position, tuples / lists of names and positions; skipna "
@@ -247,7 +248,10 @@ class C09(Prop):
             return {"op": "transform", "fn": "cum", "arrays": [arr], "axis": ax}
         if c["op"] == "diff":
             return {"op": "transform", "fn": "diff", "arrays": [arr], "axis": ax, "scheme": c["scheme"], "keepaxis": c["keepaxis"], "n": c["n"]}
-        return {"op": "transform", "fn": "arg", "arrays": [arr], "axis": ax if ax is not None else ["pos", 0]}
+        if ax is None:
+            # whole array (axis=None): the mirror Lib.argWhole, one symbolic label cell per dimension
+            return {"op": "transform", "fn": "argwhole", "arrays": [arr]}
+        return {"op": "transform", "fn": "arg", "arrays": [arr], "axis": ax}
 
     # ------------------------------------------------------------ argmin / argmax
     def judge_arg(self, c, io, lean, a):
@@ -287,6 +291,17 @@ class C09(Prop):
                     prop_bad.append("axes.attrs")
             return "axes.labels" not in prop_bad
 
+        class Env(core.CellEnv):
+            """`arg(cells, table)`: the entry of `table` at NumPy's arg-position of `cells` (Lean: `pickLabel argp lab`)"""
+            def ev(self, cell):
+                if cell[0] == "arg":
+                    fib = np.array([self.ev(x) for x in cell[1]], dtype=float)
+                    with warnings.catch_warnings():
+                        warnings.simplefilter("ignore")
+                        p = int(argf(fib))
+                    return core.dec_label(cell[2][p])
+                return core.CellEnv.ev(self, cell)
+
         if c["axis"] is None:
             # whole array: returned labels index back to the extremum
             if allnan(vals):
@@ -294,6 +309,19 @@ class C09(Prop):
                 if "err" in io and io["err"] != "value":
                     prop_bad.append("outcome:" + io["err"])
                 return done()
+            # ---- the mirror (Lib.argWhole): one label per dimension, evaluated at NumPy's flat arg-position of the
+            # row-major cell list the model hands over
+            if "ok" in lean:
+                env = Env([vals])
+                lt = [core.canon_value(env.ev(x)) for x in lean["ok"]["tuple"]]
+                if "err" in io:
+                    bad.append("outcome")
+                elif len(lt) != len(io["ok"]["tuple"]) or [same_label(x, y) for x, y in zip(io["ok"]["tuple"], lt)].count(False):
+                    bad.append("values")
+            elif "ok" in io:
+                bad.append("outcome")
+            elif io["err"] != lean["err"]:
+                bad.append("M.errclass")
             if "ok" in io:
                 with warnings.catch_warnings():
                     warnings.simplefilter("ignore")
@@ -368,15 +396,6 @@ class C09(Prop):
         fibs = np.moveaxis(vals, pos, -1).reshape(-1, vals.shape[pos])
         dead = [allnan(f) for f in fibs]
 
-        class Env(core.CellEnv):
-            def ev(self, cell):
-                if cell[0] == "arg":
-                    fib = np.array([self.ev(x) for x in cell[1]], dtype=float)
-                    with warnings.catch_warnings():
-                        warnings.simplefilter("ignore")
-                        p = int(argf(fib))
-                    return core.dec_label(cell[2][p])
-                return core.CellEnv.ev(self, cell)
         env = Env([vals])
         if any(dead):
             # a slice with nothing left once the NaNs are skipped: NumPy's nanarg* raises ValueError; the cells of the
